@@ -193,7 +193,7 @@ func cmdDriveRequest(args []string) error {
 		}
 		pslRules = keep
 	}
-	tails := []string{"", "/", "/path/x.js", "?q=1", "/p?q=1#frag", "/a:b/c", "/p?u=http://other.example/x", ":8080/x", ":443", "/P/Q.JS"}
+	tails := []string{"", "/", "/path/x.js", "?q=1", "?email=john@mail.example.net", "/p?u=a@b.example", "?a=b/c@d", "/p?q=1#frag", "/a:b/c", "/p?u=http://other.example/x", ":8080/x", ":443", "/P/Q.JS"}
 	schemes := []string{"http", "https", "ws", "wss"}
 	third, panics := 0, 0
 	var samples []string
